@@ -33,7 +33,9 @@ def init_worker():
     from yamlpath.wrappers import ConsolePrinter, NodeCoords
     from yamlpath import Processor, YAMLPath
     from yamlpath.path import SearchTerms, CollectorTerms, SearchKeywordTerms
-    from yamlpath.enums import PathSearchMethods
+    from yamlpath.enums import PathSearchMethods, PathSegmentTypes
+    from yamlpath.common import Searches
+    from yamlpath.exceptions import YAMLPathException
     import c14
     c14.init_worker()
     log = ConsolePrinter(SimpleNamespace(quiet=True, verbose=False, debug=False))
@@ -49,7 +51,8 @@ def init_worker():
         Nodes._verif_wrapped = True
     _ENV.update(Parsers=Parsers, Processor=Processor, YAMLPath=YAMLPath, NodeCoords=NodeCoords, log=log,
                 SearchTerms=SearchTerms, CollectorTerms=CollectorTerms, SearchKeywordTerms=SearchKeywordTerms,
-                PathSearchMethods=PathSearchMethods, Nodes=Nodes, seg_line=c14.seg_line,
+                PathSearchMethods=PathSearchMethods, Nodes=Nodes, PathSegmentTypes=PathSegmentTypes,
+                Searches=Searches, YAMLPathException=YAMLPathException, seg_line=c14.seg_line,
                 yaml=Parsers.get_yaml_editor())
 
 
